@@ -132,6 +132,29 @@ type FnGen struct {
 
 func (fg *FnGen) note(s string) { fg.notes[s] = true }
 
+// refLimit: every reference that exists on entry is <= reflimit; every allocation made by the function is > reflimit.
+func (fg *FnGen) refLimit() *Term {
+	c := Const("reflimit", SInt)
+	if _, ok := fg.memo["reflimit"]; !ok {
+		fg.memo["reflimit"] = c
+		fg.assume(Ge(c, IntLit(0)))
+	}
+	return c
+}
+
+// assumeOld: a value that exists on entry (parameter, free variable) refers only to pre-existing objects.
+func (fg *FnGen) assumeOld(t *Term, ty types.Type) {
+	if ty == nil {
+		return
+	}
+	switch ty.Underlying().(type) {
+	case *types.Pointer, *types.Map, *types.Chan:
+		fg.assume(Le(t, fg.refLimit()))
+	case *types.Slice:
+		fg.assume(Le(SBase(t), fg.refLimit()))
+	}
+}
+
 func (fg *FnGen) freshName(base string) string {
 	fg.fresh++
 	return fmt.Sprintf("%s!%d", base, fg.fresh)
@@ -738,6 +761,7 @@ func (fg *FnGen) val(fr *Frame, v ssa.Value) *Term {
 		t := Const(fr.prefix+"fv_"+x.Name(), fg.g.ti.sortOf(x.Type()))
 		fr.vals[v] = t
 		fg.assumeValid(t, x.Type(), True)
+		fg.assumeOld(t, x.Type())
 		return t
 	}
 	// value not yet defined (e.g. defined in a block skipped as unreachable): havoc
